@@ -5,12 +5,18 @@
     {"op":"samples","period":f,"V":f,"maxp":f,"max_len":f|null,"ff":bool,"bp":BP|null,
      "pilot":f,"nmax":nat,"days":[[[a,d,e]…]…]}
     {"op":"fit","E":f,"T":f,"V":f,"P":f,"n":nat}
+    {"op":"e2e","base":str,"site":str,"start":int,"end":int,"period":f,"V":f,"maxp":f,"max_len":…,"ff":…,
+     "bp":BP|null,"pilot":f,"nmax":nat,"fuel":nat,"zones":[[name,{"init":int,"trans":[[t,off]…]}]…],
+     "server":[[url,{"kind":"page","items":[{"fields":[[key,{"s":str}|{"ts":[str]}|{"o":true}]…],"kwh":f}…],
+                     "next":{"t":"last"|"broken"|"next","href":str}} | {"kind":"fail","err":str}]…]}
+       — the REAL client path: time-window query, pagination, parse_dates, conversion (model of C20 ∘ C15)
   BP = {"type":"ideal"|"two","capfn":null|"fit"|[a,b,c,d],"noise":f,"ts":f,"calc":str}
   (f = IEEE bit pattern of a double).  Answers are canonical: EVs in input order, events
   sorted by (arrival, session).
 -/
 import AcnModel.WireModels
 import AcnModel.Sessions
+import AcnModel.SessionsE2E
 open Lean Acn Acn.Wire Acn.Battery Acn.Evse Acn.Sessions
 
 def errStr : Sessions.Err → String
@@ -76,9 +82,97 @@ def parseSample (j : Json) : Except String (Sample Float) := do
   | [a, d, e] => pure { arrival := a, duration := d, energy := e }
   | _ => throw "sample: expected 3 numbers"
 
+/-! ### end to end (client of C20 ∘ converter) -/
+section e2e
+open Acn.HttpDate Acn.DataClient Acn.SessionsE2E
+
+def parseZoneE (j : Json) : Except String Zone := do
+  let trans ← (← getArr j "trans").mapM fun p => do
+    match ← asArr p with
+    | [t, o] => pure ((← t.getInt?), (← o.getInt?))
+    | _ => throw "bad transition"
+  pure { init := ← getInt j "init", trans }
+
+def parseZonesE (j : Json) : Except String (String → Option Zone) := do
+  let zs ← (← getArr j "zones").mapM fun p => do
+    match ← asArr p with
+    | [n, z] => pure ((← n.getStr?), (← parseZoneE z))
+    | _ => throw "bad zone entry"
+  pure fun name => match zs.find? (fun p => p.1 == name) with
+    | some p => some p.2
+    | none => none
+
+def parseValE (j : Json) : Except String Val := do
+  match j.getObjVal? "s" with
+  | .ok v => pure (.str (← v.getStr?))
+  | .error _ =>
+    match j.getObjVal? "ts" with
+    | .ok v => do pure (.ts (← (← asArr v).mapM fun x => x.getStr?))
+    | .error _ => pure .other
+
+def parseRaw (j : Json) : Except String (RawSession Float) := do
+  let fields ← (← getArr j "fields").mapM fun p => do
+    match ← asArr p with
+    | [k, v] => pure ((← k.getStr?), (← parseValE v))
+    | _ => throw "bad field"
+  pure { fields, kWh := ← getF j "kwh" }
+
+def errOfNameE (s : String) : DataClient.Err :=
+  if s == "ValueError" then .valueError else if s == "KeyError" then .keyError
+  else if s == "JSONDecodeError" then .jsonError else if s == "UnknownTimeZoneError" then .unknownTz
+  else .transport
+
+def parseRespE (j : Json) : Except String (Resp (RawSession Float)) := do
+  if (← getStr j "kind") == "page" then
+    let items ← (← getArr j "items").mapM parseRaw
+    let n ← j.getObjVal? "next"
+    let t ← getStr n "t"
+    let next ← if t == "last" then pure Next.last
+               else if t == "broken" then pure Next.broken
+               else do pure (Next.next (← getStr n "href"))
+    pure (.page { items, next })
+  else pure (.fail (errOfNameE (← getStr j "err")))
+
+/-- unknown URL: the API answers with an error document, which has no `_items` -/
+def parseServerE (j : Json) : Except String (String → Resp (RawSession Float)) := do
+  let srv ← (← getArr j "server").mapM fun p => do
+    match ← asArr p with
+    | [u, r] => pure ((← u.getStr?), (← parseRespE r))
+    | _ => throw "bad server entry"
+  pure fun u => match srv.find? (fun p => p.1 == u) with
+    | some p => p.2
+    | none => .fail .keyError
+
+def handleE2E (j : Json) : Except String Json := do
+  let period ← getF j "period"; let V ← getF j "V"; let maxp ← getF j "maxp"
+  let ff ← getBool j "ff"
+  let bp ← parseBP (← j.getObjVal? "bp")
+  let pilot ← getF j "pilot"
+  let nmax ← getNat j "nmax"
+  let maxLen ← getOpt j "max_len" (fun v => v.getInt?)
+  let zones ← parseZonesE j
+  let fetch ← parseServerE j
+  let start := toZone (fun _ => 0) (← getInt j "start")
+  let stop := toZone (fun _ => 0) (← getInt j "end")
+  match generateEvents zones (← getStr j "base") (← getStr j "site") start stop period V maxp maxLen bp ff
+      fetch (← getNat j "fuel") with
+  | .error .zeroDivision => pure (Json.mkObj [("err", jS "Other:ZeroDivisionError"), ("urls", Json.arr #[])])
+  | .error (.client e) => pure (Json.mkObj [("err", jS e.name), ("urls", Json.arr #[])])
+  | .ok tr =>
+    match tr.stop with
+    | some e => pure (Json.mkObj [("err", jS e.name), ("urls", jList jS tr.urls),
+                                  ("n_before", jN tr.items.length)])
+    | none =>
+      match answer pilot V period nmax (.ok tr.items) with
+      | .obj kvs => pure (Json.obj (kvs.insert "urls" (jList jS tr.urls)))
+      | x => pure x
+
+end e2e
+
 def handle (j : Json) : Except String Json := do
   let op ← getStr j "op"
-  if op == "fit" then
+  if op == "e2e" then handleE2E j
+  else if op == "fit" then
     let E ← getF j "E"; let T ← getF j "T"; let V ← getF j "V"; let P ← getF j "P"
     let n ← getNat j "n"
     match (battCapFnGen E T V P : Except Sessions.Err (Float × Float)) with
